@@ -23,7 +23,7 @@ PLUGIN = os.path.join(VERIF, "build", "repo_ast.so")
 PLUGIN_SRC = os.path.join(VERIF, "plugin", "repo_ast.cc")
 WITNESS_DIR = os.path.join(VERIF, "witness")
 CACHE = os.path.join(VERIF, ".cache")
-FACTS_VERSION = "7"
+FACTS_VERSION = "8"
 
 
 class AnalysisBroken(Exception):
